@@ -175,7 +175,7 @@ static long ncases(int tier, long req)
     return t;
 }
 
-static void setup(void) { err_set_loglevel(ERR_FATAL); }
+static void setup(void) { vh_log_sink(ERR_WARN); }
 
 static void apply_fault(const fileinfo *fi, const fault *ft, char **out, size_t *outn, int *remove_file)
 {
@@ -204,7 +204,7 @@ static decoder_t *try_init(const char *dir, int m, int with_lda, int mmap)
 {
     config_t *cf = config_init(NULL);
     config_set_str(cf, "hmm", dir);
-    config_set_str(cf, "loglevel", "FATAL");
+    config_set_str(cf, "loglevel", "WARN");
     config_set_str(cf, "dict", m == 0 ? vh_path("%s/tests/data/turtle.dic", vh_repo) : vh_path("%s/model/fr-fr/dict.txt", vh_repo));
     config_set_bool(cf, "mmap", mmap);
     (void)with_lda;
@@ -226,7 +226,7 @@ static int reference_ok(decoder_t *d, int m)
 static int try_feat(const char *ldapath, int use)
 {
     config_t *cf = config_init(NULL); feat_t *fcb; int ok;
-    config_set_str(cf, "loglevel", "FATAL"); config_set_str(cf, "feat", "1s_c_d_dd"); config_set_str(cf, "cmn", "none");
+    config_set_str(cf, "loglevel", "WARN"); config_set_str(cf, "feat", "1s_c_d_dd"); config_set_str(cf, "cmn", "none");
     config_set_str(cf, "lda", ldapath); config_set_int(cf, "ldadim", 29);
     vh_ctx("feat_init");
     fcb = feat_init(cf); ok = fcb != NULL;
